@@ -69,7 +69,7 @@ func init() {
 			Opt:      vrt.Options{RandInt: chooseConnOpt(), MemPoints: c.P("mem", "1") == "1", Delay: c.P("delay", "0") == "1"},
 			Classify: deadlockIs("liveness: sender threads blocked forever"),
 			Main: func() {
-				r := newMuxRig(rigCfg{conns: c.PI("conns", 2), method: method, unit: unit})
+				r := newMuxRig(rigCfg{conns: c.PI("conns", 2), method: method, unit: unit, singleplex: c.P("singleplex", "0") == "1"})
 				s0, err := r.cli.OpenStream()
 				if err != nil {
 					vrt.Fail("harness", "OpenStream: %v", err)
@@ -276,6 +276,8 @@ func init() {
 			{Scenario: "mux.seq", Params: vx.P("ops", "w1", "mem", "0", "seshclose", "1", "conns", "3", "delay", "1"), Bound: b(1, 2), Weight: 5},
 			{Scenario: "mux.seq", Params: vx.P("ops", "w5+5,w5,c", "mem", "0", "senterr", "1", "failconn", "1", "delay", "1"), Bound: b(2, 3), Weight: 8},
 			{Scenario: "mux.seq", Params: vx.P("ops", "w5+5+5,c", "mem", "0", "senterr", "1", "conns", "1"), Bound: b(2, 3), Weight: 6},
+			{Scenario: "mux.seq", Params: vx.P("ops", "w257,c", "mem", "0", "singleplex", "1", "conns", "1"), Bound: b(2, 3), Weight: 6},
+			{Scenario: "mux.seq", Params: vx.P("ops", "r256+1,c", "mem", "0", "singleplex", "1", "conns", "1", "method", "aes-256-gcm"), Bound: b(1, 2), Weight: 6},
 			{Scenario: "mux.lateframe", Bound: b(1, 2), Weight: 3},
 			{Scenario: "mux.lateframe", Params: vx.P("cycles", "4200", "targets", map[bool]string{true: "few", false: "all"}[q]), Bound: 0, Weight: 9},
 			{Scenario: "mux.seq", Params: vx.P("ops", "w1", "openers", "3", "conns", "1", "mem", "0"), Bound: b(1, 2), Weight: 6},
